@@ -2,6 +2,7 @@ CONSTANTS
   Family = "text"
   Unit = "bytes"
   MaxOps = 2
+  Shape <- NoShape
 SPECIFICATION Spec
 INVARIANTS InvWellFormed InvUniqueTags PrintSchedules
 CHECK_DEADLOCK FALSE
